@@ -20,6 +20,7 @@ import IxpeVerif.Model.HistIO
 import IxpeVerif.Model.Columns
 import IxpeVerif.Gen.Specs
 import IxpeVerif.Gen.Masks
+import IxpeVerif.Gen.AnaGen
 /-! Dispatcher of the hand-written models for the line-protocol driver.  Integers travel in decimal. -/
 namespace Driver
 
@@ -224,6 +225,14 @@ def step (ws : List String) : String :=
     let ps := Kislat.prep (uw == "1") (ac == "1") (kEvents (ints ev))
     let s := Kislat.binSums (fw emin) (fw emax) ps
     toString s.counts ++ " " ++ showFs (Kislat.row s)
+  -- garow: the same input through the definitions regenerated from the vectorised source (Gen/AnaGen.lean): constructor, reductions, row
+  | "garow" :: uw :: ac :: emin :: emax :: rest =>
+    let (ev, _) := takeN rest
+    let evs := kEvents (ints ev)
+    let look (f : Kislat.Ev Float → Float) (e : Float) : Float := match evs.find? (fun v => v.e == e) with | some v => f v | none => 0.0
+    let st := Gen.Ana.init (fun x => x != x) (evs.map (·.q)) (evs.map (·.u)) (evs.map (·.e)) (look (·.mu)) (look (·.aeff)) 1000.0
+      (if uw == "1" then some (evs.map (·.w)) else none) (ac == "1")
+    showFs (Gen.Ana.table_row st (fw emin) (fw emax) true 0.0)
   -- harm <3n> (F m delta)…   -> F m delta of the combination
   | "harm" :: rest =>
     let (c, _) := takeN rest
